@@ -602,6 +602,7 @@ def parse_error_dropped(F, rep):
         for m in nodes(fn_body(fn)):
             sub = None
             dropped = False
+            when = "always"
             if m.get("k") == "Match":
                 calls = [c for c in nodes(m["scrut"], "Call") if (callee(c) or "").startswith("sylt_parser::")
                          and "Result<(sylt_parser::Context" in (c.get("ty") or "")]
@@ -611,8 +612,13 @@ def parse_error_dropped(F, rep):
                 for arm in m["arms"]:
                     for alt in _alts(arm["pat"]):
                         if _is_err_wild(alt):
-                            from hir import diverges
-                            dropped = not diverges(arm["body"]) and not _returns_err(arm["body"])
+                            from hir import diverges, ppat
+                            if not diverges(arm["body"]) and not _returns_err(arm["body"]):
+                                dropped = True
+                                # the circumstances under which the errors are dropped are part of the instance: a known
+                                # finding for `(Err(_), true)` (prime calls only) must not hide a change to plain `Err(_)`
+                                txt = ppat(alt).replace(" ", "")
+                                when = "always" if txt in ("Result::Err(_)", "Err(_)") else "when" + txt.replace("Result::", "")
             elif m.get("k") == "If":
                 c = peel(m["c"])
                 if c.get("k") == "LetCond" and (pat_variant_of(c["pat"]) or "").endswith("Result::Ok"):
@@ -625,7 +631,7 @@ def parse_error_dropped(F, rep):
             if sub is None or not dropped:
                 continue
             n += 1
-            key = "%s|%s" % (fname, last(callee(sub)))
+            key = "%s|%s|%s" % (fname, last(callee(sub)), when)
             ex = PARSE_RETRY_EXEMPT.get((fname, last(callee(sub))))
             if ex is None and last(callee(sub)) == "parse_type":
                 # a type is written on one line: parse_type (and what it calls) never switches newline skipping on, so
